@@ -238,6 +238,40 @@ func genC01(c *Ctx) {
 				!bytes.Equal(hashPoint(msg, h2), hpoint) && !bytes.Equal(hashPoint(msg3, h), hpoint)))
 		}
 	}
+	// call history: keys never used before whose very first verification goes through buffers the caller re-uses
+	// (signature buffer and message buffer overwritten in place between calls; the same key object and a decoded copy)
+	for hi := 0; hi < 3; hi++ {
+		k := c.randScalar()
+		key := blsKey{k: k, sk: skFromInt(k), kind: "history"}
+		key.pk = key.sk.PublicKey()
+		h := crypto.NewExpandMsgXOFKMAC128("history")
+		msgBuf := c.bytes(40 + hi)
+		msgA := append([]byte{}, msgBuf...)
+		msgB := append([]byte{}, msgBuf...)
+		msgB[3] ^= 0x10
+		sigA, _ := key.sk.Sign(msgA, h)
+		sigB, _ := key.sk.Sign(msgB, h)
+		hpA, hpB := hashPoint(msgA, h), hashPoint(msgB, h)
+		pk2, _ := crypto.DecodePublicKey(crypto.BLSBLS12381, key.pk.Encode())
+		sigBuf := append([]byte{}, sigA...)
+		pkOf := func(i int) crypto.PublicKey {
+			if i%2 == 1 && pk2 != nil {
+				return pk2
+			}
+			return key.pk
+		}
+		emitVerify("history/first-valid", key, hpA, sigBuf, verifyAns(pkOf(hi), sigBuf, msgBuf, h))
+		copy(sigBuf, flipBit(sigA, 77))
+		emitVerify("history/sig-overwritten", key, hpA, sigBuf, verifyAns(pkOf(hi+1), sigBuf, msgBuf, h))
+		copy(sigBuf, sigB)
+		emitVerify("history/sig-of-other-message", key, hpA, sigBuf, verifyAns(pkOf(hi), sigBuf, msgBuf, h))
+		copy(msgBuf, msgB)
+		emitVerify("history/message-overwritten", key, hpB, sigBuf, verifyAns(pkOf(hi+1), sigBuf, msgBuf, h))
+		copy(sigBuf, sigA)
+		emitVerify("history/old-sig-new-message", key, hpB, sigBuf, verifyAns(pkOf(hi), sigBuf, msgBuf, h))
+		copy(msgBuf, msgA)
+		emitVerify("history/restored", key, hpA, sigBuf, verifyAns(pkOf(hi+1), sigBuf, msgBuf, h))
+	}
 	// fixed hashers: chosen 128-byte outputs including chunks >= p
 	ones := make([]byte, 128)
 	for i := range ones {
